@@ -67,11 +67,10 @@ func processHints(query sql.ISelect, hints *storage.SelectHints) sql.ISelect {
 		)
 	}
 	if rangeVectors[hints.Func] && hints.Step > hints.Range {
-		msInStep := sql.NewRawObject(fmt.Sprintf("timestamp_ms %% %d", hints.Step))
-		query.AndWhere(sql.Or(
-			sql.Eq(msInStep, sql.NewIntVal(0)),
-			sql.Ge(msInStep, sql.NewIntVal(hints.Step-hints.Range)),
-		))
+		// hints.Start is the first evaluation time minus the range: the engine reads the windows
+		// [Start + i*Step, Start + i*Step + Range], whatever Start is modulo Step.
+		msInStep := sql.NewRawObject(fmt.Sprintf("(timestamp_ms - %d) %% %d", hints.Start, hints.Step))
+		query.AndWhere(sql.Le(msInStep, sql.NewIntVal(hints.Range)))
 	}
 	/*aggregators := map[string]string{
 		"sum":   "sum(spls.value)",
